@@ -5,6 +5,10 @@ p='/verif/DESIGN.md'
 s=open(p).read()
 i=s.index("## 8. Showing that the checks can fail")
 j=s.index("## 9. Log of false alarms and corrections")
+for _m in ("### 8.3 Syntactic mutation campaign", "### 8.4 Changes that keep the properties"):
+    if _m in s:
+        j=min(j, s.index(_m))
+KEEP_TAIL = j != s.index("## 9. Log of false alarms and corrections")
 def rows(rnd):
     out=[]
     for d in sorted(x for x in glob.glob('/verif/seeded/*') if os.path.isdir(x)):
@@ -200,6 +204,8 @@ the sequential sweep over all 65 536 start values and by the model in the concur
 ---------------------------------------------------------------------------------------------
 
 '''
+if KEEP_TAIL:
+    new=new.rstrip().rsplit('\n',1)[0].rstrip()+'\n\n'
 s=s[:i]+new+s[j:]
 open(p,'w').write(s)
 print('section 8 regenerated: round1',n1,m1,'round2',n2,m2)
